@@ -264,17 +264,28 @@ def buildMessageClass (d : Definitions) (pm : PtMessage) : Except Err Cls := do
 
 /-! ## `map_binding_operation_messages`, `map_binding_operation` -/
 
+/-- `f"{a}_{b}"` -/
+def joinU (a b : Str) : Str := a ++ ws!"_" ++ b
+
+/-- `if style == "rpc": yield cls.build_message_class(definitions, port_type_message)` -/
+def rpcMessageClass (d : Definitions) (style : Str) (pm : PtMessage) : Except Err (Option Cls) :=
+  if style == ws!"rpc" then (buildMessageClass d pm).map some else .ok none
+
+/-- `if suffix == "output": cls.build_envelope_fault(...)` -/
+def withFault (d : Definitions) (po : PtOperation) (isOutput : Bool) (env : Cls) : Except Err Cls :=
+  if isOutput then buildEnvelopeFault d po env else .ok env
+
 /-- classes of one direction: the rpc message class (if any) and the envelope -/
 def mapMessage (d : Definitions) (po : PtOperation) (name style : Str) (ns : Option Str)
     (sfx : Str) (bm : BMessage) (pm? : Option PtMessage) (opName : Option Str) (isOutput : Bool) :
-    Except Err (Option Cls × Cls) := do
-  let pm ← match pm? with
-    | some pm => pure pm
-    | none => throw Err.attributeError
-  let msgCls ← if style == ws!"rpc" then (buildMessageClass d pm).map some else pure none
-  let env ← buildEnvelopeClass d bm pm (name ++ ws!"_" ++ sfx) style ns opName
-  let env' ← if isOutput then buildEnvelopeFault d po env else pure env
-  pure (msgCls, env')
+    Except Err (Option Cls × Cls) :=
+  match pm? with
+  | none => .error .attributeError
+  | some pm => do
+    let msgCls ← rpcMessageClass d style pm
+    let env ← buildEnvelopeClass d bm pm (joinU name sfx) style ns opName
+    let env' ← withFault d po isOutput env
+    pure (msgCls, env')
 
 /-- `map_binding_operation_messages` as a list of (message class, envelope) per direction -/
 def mapMessages (d : Definitions) (bo : BOperation) (po : PtOperation) (name style : Str)
@@ -304,7 +315,7 @@ def flattenPair : Option Cls × Cls → List Cls
 def mapBindingOperation (d : Definitions) (bo : BOperation) (po : PtOperation) (cfg : Dict)
     (ptName : Str) : Except Err (List Cls) := do
   let style := (aget cfg ws!"style").getD ws!"document"
-  let name := ptName ++ ws!"_" ++ bo.name
+  let name := joinU ptName bo.name
   let ns := operationNamespace cfg
   let pairs ← mapMessages d bo po name style ns
   let attrs := constAttrs cfg ++ pairs.map (fun p => refAttr p.2)
